@@ -26,6 +26,7 @@ def run(ctx, rep):
     rep.rule('E6', e6_mirror.__doc__.strip().split('\n')[0])
     rep.rule('E2', e2_float.__doc__.strip().split('\n')[0])
     e6_mirror.run_snf(facts, rep)
+    e6_mirror.check_flag_table(facts, rep)
     e2_float.apply(facts, rep, scope, 'C09', floor_scope=25)
     rep.rule('E21', e21_snfscan.__doc__.strip().split('\n')[0])
     e21_snfscan.run(facts, rep)
